@@ -36,7 +36,9 @@ def run(ctx):
     out = ctx.harness(binary, ["-plans", pdir, "-out", seqf, "-conc", concf, "-seed", ctx.seed,
                          "-hist", ctx.q(300, 4000), "-burst", ctx.q(4, 40), "-batch", ctx.q(3, 30),
                          "-mono", ctx.q(3, 12), "-monocalls", ctx.q(9000, 20000),
-                         "-nano", ctx.q(40, 600), "-nconc", ctx.q(16, 96), "-perg", ctx.q(150, 200)],
+                         "-nano", ctx.q(40, 600), "-nconc", ctx.q(16, 96), "-perg", ctx.q(150, 200),
+                         "-pair", ctx.q(40, 500), "-bad", ctx.q(16, 64), "-cold", ctx.q(250, 2500),
+                         "-coldms", ctx.q(2500, 20000)],
                 traces=[seqf, concf])
     seq = ctx.load_traces(seqf)
     conc = ctx.load_traces(concf)
@@ -47,7 +49,7 @@ def run(ctx):
     ctx.extra["free_running_overlap"] = {
         m.group(1): {"calls": int(m.group(2)), "overlapped_with_another_call": int(m.group(3)),
                      "max_simultaneously_pending": int(m.group(4))}
-        for m in re.finditer(r"overlap kind=(\w+) calls=(\d+) overlapped=(\d+) maxpending=(\d+)", out)}
+        for m in re.finditer(r"overlap kind=([\w-]+) calls=(\d+) overlapped=(\d+) maxpending=(\d+)", out)}
     ctx.extra["plans"] = len(plans)
     ctx.extra["sequential_and_plan_traces"] = len(seq)
     ctx.extra["free_running_traces"] = len(conc)
